@@ -309,7 +309,7 @@ def run(ctx, host=None):
     # rules of other properties that are necessary conditions of this one too: long-open reader handles are in the quantifier: the freshness rules of C08 are premises too
     if host is None:
         from ..report import host_modules
-        host_modules(chk, ctx, ['C08', 'C07'])
+        host_modules(chk, ctx, ['C08', 'C07', 'C03'])
 
     return chk.finish(
         explanation=('Decides, from the source, the code-side premises of the protocol\'s safety argument (DESIGN 5/C04): writer publishes complete files '
